@@ -161,6 +161,31 @@ func checkText(w *run.W, b []byte, shape bool) {
 					"ReadToken loop on %q (%s, reader %s cut %d): %d tokens then %v (depth %d); reference: %d tokens, stream valid=%v", b, c, rname, cut, nt, err, d.StackDepth(), len(toks), streamOK)
 			}
 			w.Count("decoder_passes_"+rname, 2)
+
+			// (3b) mixed: at every position where a value may start, the text itself decides (hash bit) whether
+			// it is read as a whole (ReadValue / SkipValue) or entered by tokens: verdict must be the reference's
+			for pat := 0; ri == 0 && len(b) >= 4 && pat < 3; pat++ {
+				d = jsontext.NewDecoder(mk(), opts...)
+				h := [3]uint64{fnvSum(b), ^fnvSum(b), 0x5555555555555555}[pat] // (the third: every container by ReadValue)
+				steps := 0
+				for err = nil; err == nil && steps <= 2*len(b)+2; steps++ {
+					k := d.PeekKind()
+					bit := (h >> (uint(steps) % 61)) & 3
+					switch {
+					case (k == '{' || k == '[') && bit == 1:
+						_, err = d.ReadValue()
+					case (k == '{' || k == '[') && bit == 2:
+						err = d.SkipValue()
+					default:
+						_, err = d.ReadToken()
+					}
+				}
+				if (err == io.EOF) != streamOK {
+					w.Violate("mixed-read-stream", map[string]string{"cfg": c.String(), "want_eof": fmt.Sprint(streamOK), "got_eof": fmt.Sprint(err == io.EOF)},
+						"reading %q (%s) with ReadToken/ReadValue/SkipValue mixed (pattern %#x) ended with %v after %d calls (depth %d); reference: stream valid=%v", b, c, h, err, steps, d.StackDepth(), streamOK)
+				}
+				w.Count("decoder_passes_mixed", 1)
+			}
 		}
 
 		// (4) Unmarshal into any: a syntactic error iff the grammar rejects the text.
@@ -619,6 +644,27 @@ func generate(w *run.W) {
 						w.Do("text", &textArgs{Text: []byte{'"', a, b, c, d, '"'}, Note: "utf8-4"})
 						w.Do("text", &textArgs{Text: []byte{'{', '"', a, b, c, d, '"', ':', '"', a, b, '"', '}'}, Note: "utf8-4"})
 					}
+				}
+			}
+		}
+	}
+	// \u escapes: every byte value at every digit position (hex digits in both cases are the only 22 admissible bytes;
+	// bytes that fold onto a digit or letter when a case bit is set or cleared are the classic slip)
+	for pos := 0; pos < 4; pos++ {
+		if !mine() {
+			continue
+		}
+		for b := 0; b < 256; b++ {
+			for _, base := range []string{"0041", "d83d", "DBFF"} {
+				d := []byte(base)
+				d[pos] = byte(b)
+				w.Do("text", &textArgs{Text: []byte(`"\u` + string(d) + `"`), Note: "escape-digit"})
+				if base != "0041" {
+					// first half of a pair / second half of a pair
+					w.Do("text", &textArgs{Text: []byte(`["\u` + string(d) + `\udc00"]`), Note: "escape-digit"})
+					lo := []byte("dE00")
+					lo[pos] = byte(b)
+					w.Do("text", &textArgs{Text: []byte(`{"\u` + base + `\u` + string(lo) + `":0}`), Note: "escape-digit"})
 				}
 			}
 		}
